@@ -73,9 +73,14 @@ JWS_ALGS = ["HS256", "HS384", "HS512", "RS256", "RS384", "RS512", "ES256", "ES38
 ES_CRV = {"ES256": "P-256", "ES384": "P-384", "ES512": "P-521", "ES256K": "secp256k1"}
 
 
+_WS = [b" ", b"\n", b"\r\n", b"\t", b"\x0b", b"\x0c", b""]
+# secrets whose first / last octets are blanks or line breaks: octets of the key like any other
+oct_bordered = st.tuples(st.sampled_from(_WS), st.binary(min_size=1, max_size=40), st.sampled_from(_WS)).map(lambda t: {"kty": "oct", "k": t[0] + t[1] + t[2]})
+
+
 def jws_key_for(alg: str):
     if alg.startswith("HS") or alg == "none":
-        return oct_key(1, 80)
+        return st.one_of(oct_key(1, 80), oct_key(1, 80), oct_bordered)
     if alg in ("PS512",):
         return rsa_key(2048, 4096)
     if alg[:2] in ("RS", "PS"):
